@@ -40,6 +40,15 @@ static std::vector<Script> scripts(int threads) {
         {"S12-no-legal-move", {H1, th, ST, "go depth 1 searchmoves h8g8", "@await bestmove", "go infinite", "stop", "@await bestmove", "quit"}},
         {"S14-options-between-then-clock-go", {H1, th, W1, "go depth 1", "@await bestmove", "setoption name Ponder value true", "setoption name BufferTime value 10", PW, "go wtime 60 btime 60", "@await bestmove", "quit"}},
         {"S15-options-during-then-clock-go", {H1, th, PW, "go infinite", "setoption name Ponder value true", "setoption name BufferTime value 10", "setoption name MultiPV value 2", "stop", "@await bestmove", PB, "go wtime 60 btime 60 winc 1 binc 1", "@await bestmove", "quit"}},
+        // deeper searches in which the helper threads really search (used by the ThreadSanitizer parts; selected only by name)
+        {"D1-depth5-startpos", {H1, th, "position startpos", "go depth 5", "@await bestmove", "quit"}},
+        {"D2-multipv-depth4", {H1, th, "setoption name MultiPV value 3", "position fen 4k3/8/8/8/8/8/4P3/4K3 w - - 0 1", "go depth 4", "@await bestmove", "quit"}},
+        {"D3-tablebase-infinite", {"setoption name Hash value 16", th, "position fen 8/8/8/3k4/8/8/8/KQ6 w - - 0 1", "go infinite", "@sleep 40", "stop", "@await bestmove", "quit"}},
+        {"D4-nodes-limit", {H1, th, "position startpos", "go nodes 3000", "@await bestmove", "quit"}},
+        {"D5-ponderhit-timed", {H1, th, "setoption name Ponder value true", "position startpos", "go ponder wtime 300 btime 300", "@sleep 5", "ponderhit", "@await bestmove", "quit"}},
+        {"D6-clearhash-newgame-between", {H1, th, "position startpos", "go depth 3", "@await bestmove", "setoption name Clear Hash", "ucinewgame", "position startpos moves d2d4", "go depth 3", "@await bestmove", "quit"}},
+        {"D7-threads-change-between", {H1, th, "position startpos", "go depth 3", "@await bestmove", "setoption name Threads value 3", "position startpos moves d2d4 d7d5", "go depth 3", "@await bestmove", "quit"}},
+        {"D8-stop-mid-search", {H1, th, "position startpos", "go depth 30", "@sleep 30", "stop", "@await bestmove", "quit"}},
         {"S13-stop-after-finished", {H1, th, W1, "go depth 1", "@await bestmove", "stop", "isready", "@await readyok", PB, "go depth 1", "@await bestmove", "quit"}},
     };
 }
@@ -217,7 +226,7 @@ int main(int argc, char** argv) {
     if (w.args.has("dump")) {
         // debugging aid: run the default schedule of one script twice and print the (thread, op, options) sequences
         for (int th : thr) for (auto& sc : scripts(th)) {
-            if (!only.empty() && (";" + only + ";").find(";" + sc.name.substr(0, sc.name.find('-')) + ";") == std::string::npos) continue;
+            if (only.empty() ? sc.name[0] == 'D' : (";" + only + ";").find(";" + sc.name.substr(0, sc.name.find('-')) + ";") == std::string::npos) continue;
             for (int k = 0; k < 2; k++) {
                 ses::Transcript t = runScheduled(sc.lines, parseChoices(w.args.get("choices", "")));
                 std::string f = w.args.get("dump") + "." + std::to_string(k);
@@ -235,7 +244,7 @@ int main(int argc, char** argv) {
         FREE = true;
         int reps = (int)w.args.getInt("reps", 2); unsigned long long id = 0;
         for (int th : thr) for (auto& sc : scripts(th)) {
-            if (!only.empty() && (";" + only + ";").find(";" + sc.name.substr(0, sc.name.find('-')) + ";") == std::string::npos) continue;
+            if (only.empty() ? sc.name[0] == 'D' : (";" + only + ";").find(";" + sc.name.substr(0, sc.name.find('-')) + ";") == std::string::npos) continue;
             for (int r = 0; r < reps; r++) { if (!w.mine(id++)) continue; W->crumb("free " + sc.name); ses::Transcript t = runScheduled(sc.lines, {}, 120); sharedTrace->fingerprint = id; judge(sc, th, {}, t); }
         }
         R.count("evaluations", R.counters["schedules"]); w.finish(R); return 0;
@@ -271,7 +280,7 @@ int main(int argc, char** argv) {
     }
     unsigned long long workId = 0;
     for (int th : thr) for (auto& sc : scripts(th)) {
-        if (!only.empty() && (";" + only + ";").find(";" + sc.name.substr(0, sc.name.find('-')) + ";") == std::string::npos) continue;
+        if (only.empty() ? sc.name[0] == 'D' : (";" + only + ";").find(";" + sc.name.substr(0, sc.name.find('-')) + ";") == std::string::npos) continue;
         explore(sc, th, bound, workId);
         if (!R.exhaustive) break;
         if (R.samples.size() < 3) R.sampleStr(sc.name + " threads=" + std::to_string(th) + " points(default)=" + std::to_string(sharedTrace->nPoints));
